@@ -13,6 +13,7 @@ package cache
 // is checked against it.
 
 import (
+	"bytes"
 	"context"
 	"encoding/json"
 	"fmt"
@@ -125,6 +126,15 @@ type vkC04Static struct{}
 func (vkC04Static) Name() string { return "vkstatic" }
 
 func (vkC04Static) ServeDNS(ctx context.Context, ch *middleware.Chain) {
+	// A wire-born request must stay undecoded on its way to the cache (hostsfile & co. decide on
+	// the wire name as well): only mid.t. is looked at in decoded form.
+	if ch.Request.Undecoded() {
+		want := vkPackName(vkMidName)
+		if !bytes.EqualFold(ch.Request.WireName(), want) {
+			ch.Next(ctx)
+			return
+		}
+	}
 	req := ch.Request.Msg()
 	if req == nil || len(req.Question) != 1 || !strings.EqualFold(req.Question[0].Name, vkMidName) {
 		ch.Next(ctx)
@@ -136,6 +146,15 @@ func (vkC04Static) ServeDNS(ctx context.Context, ch *middleware.Chain) {
 	m.Answer = []dns.RR{&dns.CNAME{Hdr: dns.RR_Header{Name: req.Question[0].Name, Rrtype: dns.TypeCNAME, Class: dns.ClassINET, Ttl: 300}, Target: vkPName}}
 	_ = ch.Writer.WriteMsg(m)
 	ch.Cancel()
+}
+
+func vkPackName(name string) []byte {
+	buf := make([]byte, 300)
+	n, err := dns.PackDomainName(name, buf, 0, nil, false)
+	if err != nil {
+		panic(err)
+	}
+	return buf[:n]
 }
 
 func clampTTL(d time.Duration) time.Duration {
